@@ -40,7 +40,7 @@ ASSUMPTIONS = [
 ]
 BUDGET = {"quick": 50, "thorough": 450}
 NCASES = {"quick": 3000, "thorough": 60000}
-FLOORS = {"quick": {"case_held": 400, "nontrivial": 300}, "thorough": {"case_held": 12000, "nontrivial": 8000}}
+FLOORS = {'quick': {'case_held': 400, 'nontrivial': 300}, 'thorough': {'case_held': 12000, 'nontrivial': 8000, 'suite:apply_derivatives:held': 3000, 'suite:apply_derivatives:held_and_changed': 2000}}
 COVER_FLOORS = {"quick": {"outer": ["grad", "div", "curl", "nabla_grad", "nabla_div", "dx"]}, "thorough": {"outer": ["grad", "div", "curl", "nabla_grad", "nabla_div", "dx"]}}
 CELLS = [("interval", 1), ("interval", 2), ("triangle", 2), ("triangle", 2), ("triangle", 3), ("tetrahedron", 3), ("tetrahedron", 3)]
 DERIV = {"Grad", "Div", "Curl", "NablaGrad", "NablaDiv", "ReferenceGrad", "ReferenceDiv", "ReferenceCurl"}
@@ -137,3 +137,15 @@ def case(ctx, i, rng):
         ctx.count("structure_checks")
         if bad:
             ctx.violation(f"C03/expand_derivatives/derivative-of-non-terminal-left/{bad[0]}", f"output still differentiates non-terminals: {bad[:4]}", {"input": str(e)[:800], "output": str(out)[:800]})
+
+
+# ---- additional workload (thorough tier): the repository's own test-suite with this property's passes monitored
+EXTRA_JOBS = {"thorough": ["suite"]}
+SUITE_TARGETS = ['apply_derivatives']
+
+
+def extra_suite(ctx):
+    """Every call the repository's tests make to the monitored passes is judged by the same value oracle (vf/suitemon.py)."""
+    from ..suite_driver import run_suite
+
+    run_suite(ctx, SUITE_TARGETS, "C03")
